@@ -1170,6 +1170,8 @@ class SyncObj(object):
             self.__raftNextIndex[node] = self.__getCurrentLogIndex() + 1
             self.__raftMatchIndex[node] = 0
             self.__lastResponseTime[node] = monotonicTime()
+            # chunks of a snapshot transfer begun in an earlier term of office may have been ignored
+            self.__serializer.cancelTransmisstion(node)
 
         # No-op command after leader election.
         idx, term = self.__getCurrentLogIndex() + 1, self.__raftCurrentTerm
